@@ -409,7 +409,7 @@ pub fn run(cfg: &RunCfg, rep: &mut Report) {
 
         // D. policies
         let nm = AbstractPolNames;
-        let pcfg = PolGenCfg { max_leaves: 8, n_keys: 6, n_hash: 2, concrete: true, constants: rng.coin(), repeat_atoms: true, timelocks: true, hashes: true, max_depth: 4 };
+        let pcfg = PolGenCfg { max_leaves: 8, n_keys: 6, n_hash: 2, concrete: true, constants: rng.coin(), repeat_atoms: true, timelocks: true, hashes: true, max_depth: 4, timelock_heavy: false };
         let leaves = 1 + rng.below(8);
         let p = PolGen::new(&mut rng, pcfg).gen(leaves, 0);
         let pc = |s: &str| Concrete::<String>::from_str(s).map_err(|e| e.to_string());
